@@ -360,7 +360,7 @@ func b2i(b bool) int {
 }
 
 func c19Gen(rt *rapid.T) c19Case {
-	rates := []int64{20000, 50000, 100000, 333333, 1000000, 3000000, 10000000}
+	rates := []int64{1000, 5000, 20000, 50000, 100000, 333333, 1000000, 3000000, 10000000}
 	sc := c19Case{
 		RxRate:    rapid.SampledFrom(rates).Draw(rt, "rx"),
 		TxRate:    rapid.SampledFrom(rates).Draw(rt, "tx"),
@@ -399,6 +399,8 @@ func c19Gen(rt *rapid.T) c19Case {
 			var sz int
 			if rate >= 1000000 {
 				sz = rapid.SampledFrom([]int{16132, 16132, 8000, 12000}).Draw(rt, "size")
+			} else if rate < 20000 {
+				sz = rapid.SampledFrom([]int{1500, 300, 37, 1}).Draw(rt, "size")
 			} else {
 				sz = rapid.SampledFrom([]int{16132, 8000, 1500, 300, 37}).Draw(rt, "size")
 			}
